@@ -10,7 +10,7 @@ The clause follows one get_char() episode under explicit, checkable side conditi
   * a `cmd` in that mode must be the first NUL-terminated piece of the collected bytes (leading NULs skipped, BS/DEL
     edited), which is consumed together with the NULs behind it;
   * end: an `st` line shows SINGLE_CHAR cleared.  If the bytes left over are `crClean`-shaped (every CR followed by
-    LF or CR, or last) and short enough for the reframing to have room, then from here on the delivered commands must
+    LF or CR, or last) and short enough for the reframing to have room (3/2 of their length stays below MAX_TEXT), then from here on the delivered commands must
     (and the decoder's TS_CR_SEEN flag is what they explain) then from here on the delivered commands must
     be `lines (left-over ++ everything received later)`: at every `cmd` a prefix, at every `nocmd` all of them.
 The direct SINGLE_CHAR pokes of the case language (`iflag single|line`) bypass set_call / call_function_interactive;
@@ -53,7 +53,7 @@ def judgeModeStep (j : JM) (e : Ev) : JM :=
           -- the decoder's pending-CR flag must be the one the left-over bytes explain (a CR that was handed out with
           -- the get_char text leaves TS_CR_SEEN set: then the next LF ends an empty line - not judged)
           let endsCR := r.getLast? == some bCR
-          if crCleanSpec r && r.all (· != bIAC) && decide (r.length ≤ 1000) &&
+          if crCleanSpec r && r.all (· != bIAC) && decide (3 * r.length + 16 ≤ 2 * MAXT) &&
              ((state == tsCrSeen && endsCR) || (state == 0 && !endsCR)) then { j with raw := none, seg := some (r, []) }
           else j.stop
         | none => j.stop
